@@ -317,6 +317,13 @@ class ArrV:
         return sets, scalar
 
 
+def _as_index(i):
+    """an integer array used as an index is an integer list"""
+    if isinstance(i, ArrV) and len(i.shape) == 1 and not i.batch:
+        return Tup([sp.sympify(i.get((k,))) for k in range(i.shape[0])], "list")
+    return i
+
+
 class MatchV:
     def __init__(self, m):
         self.m = m
@@ -371,6 +378,10 @@ class Ev:
             return v.sym_getattr(self, name, node, mod)
         if isinstance(v, Obj) and name == "_asdict" and "__fields__" in v.attrs:
             return BoundLib("namedtuple._asdict", v)
+        if isinstance(v, Obj) and name == "_replace" and "__fields__" in v.attrs:
+            return BoundLib("namedtuple._replace", v)
+        if isinstance(v, Obj) and name == "_fields" and "__fields__" in v.attrs:
+            return Tup(list(v.attrs["__fields__"]), "tuple")
         if isinstance(v, Obj):
             return self.obj_attr(v, name, node, mod)
         if isinstance(v, Opaque):
@@ -420,6 +431,8 @@ class Ev:
             return BoundLib(f"str.{name}", v)
         if isinstance(v, PairList) and name in ("items", "keys", "values"):
             return BoundLib(f"pairlist.{name}", v)
+        if isinstance(v, Tup) and v.kind == "set" and name in ("union", "intersection", "difference", "symmetric_difference", "issubset", "issuperset", "isdisjoint", "add", "discard", "remove", "update"):
+            return BoundLib(f"set.{name}", v)
         if isinstance(v, Tup) and name in ("append", "index", "tolist", "extend", "count", "copy", "pop"):
             return BoundLib(f"list.{name}", v)
         if isinstance(v, MatchV) and name in ("group", "groups"):
@@ -429,6 +442,12 @@ class Ev:
         if isinstance(v, ArrV) and name == "astype":
             return BoundLib("ndarray.astype", v)
         if isinstance(v, ArrV) and name in ("min", "max", "sum", "mean"):
+            return BoundLib(f"arr.{name}", v)
+        if isinstance(v, ArrV) and name in ("transpose", "round", "clip", "repeat"):
+            return BoundLib(f"ndarray.{name}" if name != "repeat" else "numpy.repeat", v)
+        if isinstance(v, ArrV) and name == "dtype":
+            return LibV("numpy.float64")
+        if isinstance(v, ArrV) and name in ("tolist", "flatten", "ravel"):
             return BoundLib(f"arr.{name}", v)
         if isinstance(v, ArrV) and name == "ndim":
             return sp.Integer(v.batch + len(v.shape))
@@ -899,7 +918,12 @@ class Ev:
                 return (a is b) if isinstance(op, ast.Eq) else (a is not b)
         if isinstance(op, (ast.Is, ast.IsNot)):
             r = (a is b) or (a is None and b is None)
-            if not (a is None or b is None or isinstance(a, bool) or isinstance(b, bool)):
+            if isinstance(a, (LibV, ClsV, EnumV)) and isinstance(b, (LibV, ClsV, EnumV)):
+                # `type(x) is int`, `cls is Base`, `kind is Enum.MEMBER`: compared by what they name
+                same = (type(a) is type(b)) and (getattr(a, "name", None), getattr(a, "ref", None), getattr(a, "cls", None)) == \
+                       (getattr(b, "name", None), getattr(b, "ref", None), getattr(b, "cls", None))
+                return same if isinstance(op, ast.Is) else not same
+            if not (a is None or b is None or isinstance(a, bool) or isinstance(b, bool) or a is b):
                 raise self.err("identity comparison of non-constants", n, mod)
             if isinstance(a, (Obj, sp.Basic, Tup, str)) and b is None:
                 r = False
@@ -991,7 +1015,8 @@ class Ev:
         if isinstance(base, ShapeOf):
             return sp.Symbol(f"dim{idx}", positive=True, integer=True)
         if isinstance(base, ArrV):
-            items = idx.items if isinstance(idx, Tup) else [idx]
+            items = idx.items if isinstance(idx, Tup) and idx.kind != "list" else [idx]
+            items = [_as_index(i) for i in items]
             sets, scalar = base.index_sets(items, self, n, mod)
             if all(scalar):
                 return base.get([x[0] for x in sets])
@@ -1947,6 +1972,50 @@ def lib_set(ev, a, k, n, mod):
     return Tup(out, "set")
 
 
+def lib_set_method(name):
+    def f(ev, a, k, n, mod):
+        me = a[0]
+        others = [ev.iterate(o, n, mod) for o in a[1:]]
+        keys = lambda items: [hkey(i) for i in items]
+        if name in ("union", "update"):
+            out = list(me.items)
+            for o in others:
+                for i in o:
+                    if hkey(i) not in keys(out):
+                        out.append(i)
+            if name == "update":
+                me.items[:] = out
+                return None
+            return Tup(out, "set")
+        if name == "intersection":
+            out = [i for i in me.items if all(hkey(i) in keys(o) for o in others)]
+            return Tup(out, "set")
+        if name == "difference":
+            return Tup([i for i in me.items if not any(hkey(i) in keys(o) for o in others)], "set")
+        if name == "symmetric_difference":
+            o = others[0]
+            return Tup([i for i in me.items if hkey(i) not in keys(o)] + [i for i in o if hkey(i) not in keys(me.items)], "set")
+        if name == "issubset":
+            return all(hkey(i) in keys(others[0]) for i in me.items)
+        if name == "issuperset":
+            return all(hkey(i) in keys(me.items) for i in others[0])
+        if name == "isdisjoint":
+            return not any(hkey(i) in keys(others[0]) for i in me.items)
+        if name == "add":
+            if hkey(a[1]) not in keys(me.items):
+                me.items.append(a[1])
+            return None
+        if name in ("discard", "remove"):
+            hit = [i for i in me.items if hkey(i) == hkey(a[1])]
+            if not hit and name == "remove":
+                raise RaisedV("KeyError")
+            for i in hit:
+                me.items.remove(i)
+            return None
+        raise ev.err(f"set method {name}", n, mod)
+    return f
+
+
 def lib_int(ev, a, k, n, mod):
     v = a[0]
     if isinstance(v, str):
@@ -2375,6 +2444,20 @@ def lib_np_round(ev, a, k, n, mod):
 lib_np_round.kw = {"decimals"}
 
 
+def lib_nt_replace(ev, a, k, n, mod):
+    src_ = a[0]
+    bad = [kk for kk in k if kk not in src_.attrs["__fields__"]]
+    if bad:
+        raise RaisedV("ValueError")
+    out = Obj(src_.cls, dict(src_.attrs), getattr(src_, "label", None))
+    for kk, v in k.items():
+        out.attrs[kk] = v
+    return out
+
+
+lib_nt_replace.kw = None
+
+
 def lib_getattr(ev, a, k, n, mod):
     if not isinstance(a[1], str):
         raise ev.err("getattr with a non-constant name", n, mod)
@@ -2404,7 +2487,7 @@ LIB.update({
     "re.fullmatch": lib_regex_method("fullmatch"), "re.sub": lib_regex_method("sub"), "re.findall": lib_regex_method("findall"), "re.split": lib_regex_method("split"),
     "re.compile": lib_re_compile, "regex.search": lib_regex_method("search"), "regex.match": lib_regex_method("match"),
     "regex.fullmatch": lib_regex_method("fullmatch"), "regex.sub": lib_regex_method("sub"), "regex.findall": lib_regex_method("findall"), "regex.split": lib_regex_method("split"),
-    "functools.partial": lib_partial, "operator.attrgetter": lib_attrgetter, "operator.itemgetter": lib_itemgetter,
+    "namedtuple._replace": lib_nt_replace, "functools.partial": lib_partial, "operator.attrgetter": lib_attrgetter, "operator.itemgetter": lib_itemgetter,
     "types.MappingProxyType": lib_mapping_proxy, "frozenset": lib_frozenset,
     "numpy.errstate": lib_nullcontext, "warnings.catch_warnings": lib_nullcontext, "contextlib.nullcontext": lib_nullcontext,
     "numpy.round": lib_np_round, "numpy.around": lib_np_round, "numpy.round_": lib_np_round, "ndarray.round": lib_np_round,
@@ -3196,17 +3279,49 @@ def lib_dict_setdefault(ev, a, k, n, mod):
 LIB.update({"dict.clear": lib_dict_clear, "dict.setdefault": lib_dict_setdefault})
 
 
-def _arr_reduce(fn):
+def _arr_reduce(fn, symbolic=None):
     def f(ev, a, k, n, mod):
         x = a[0]
+        axis = k.get("axis", a[1] if len(a) > 1 else None)
+        keep = k.get("keepdims", False)
+        if axis is not None:
+            if symbolic is None and not all(sp.sympify(x.get(key)).is_number for key in itertools.product(*[range(d) for d in x.shape])):
+                raise ev.err("axis-wise reduction of a non-constant small array", n, mod)
+            nd = x.batch + len(x.shape)
+            ax = _const_int(axis) % nd
+            if x.batch_last or ax < x.batch:
+                raise ev.err("reduction over a grid axis of a small array", n, mod)
+            ca = ax - x.batch
+            shape = [d for i, d in enumerate(x.shape) if i != ca]
+            out = ArrV(x.batch, [1 if i == ca else d for i, d in enumerate(x.shape)] if keep else shape)
+            for key in itertools.product(*[range(d) for d in shape]):
+                vals = [sp.sympify(x.get(key[:ca] + (j,) + key[ca:])) for j in range(x.shape[ca])]
+                r = fn(vals) if all(v.is_number for v in vals) else symbolic(vals)
+                out.cells[(key[:ca] + (0,) + key[ca:]) if keep else key] = r
+            return out if out.shape else out.get(())
         vals = [sp.sympify(x.get(key)) for key in itertools.product(*[range(d) for d in x.shape])]
-        if k or len(a) > 1:
-            raise ev.err("axis-wise reduction of a small array is not modelled", n, mod)
         if all(v.is_number for v in vals):
             return fn(vals)
+        if symbolic is not None and not x.batch:
+            return symbolic(vals)
         raise ev.err("reduction of a non-constant small array", n, mod)
+    f.kw = {"axis", "keepdims"}
     return f
 
 
-LIB.update({"arr.min": _arr_reduce(min), "arr.max": _arr_reduce(max), "arr.sum": _arr_reduce(lambda v: sum(v, sp.Integer(0))),
-            "arr.mean": _arr_reduce(lambda v: sum(v, sp.Integer(0)) / len(v))})
+def lib_arr_tolist(ev, a, k, n, mod):
+    x = a[0]
+    def rec(prefix, depth):
+        if depth == len(x.shape):
+            return x.get(prefix)
+        return Tup([rec(prefix + (i,), depth + 1) for i in range(x.shape[depth])], "list")
+    return rec((), 0)
+
+
+LIB.update({"arr.tolist": lib_arr_tolist})
+LIB.update({f"set.{m_}": lib_set_method(m_) for m_ in ("union", "intersection", "difference", "symmetric_difference", "issubset", "issuperset", "isdisjoint",
+                                                          "add", "discard", "remove", "update")})
+
+
+LIB.update({"arr.min": _arr_reduce(min), "arr.max": _arr_reduce(max), "arr.sum": _arr_reduce(lambda v: sum(v, sp.Integer(0)), lambda v: sum(v, sp.Integer(0))),
+            "arr.mean": _arr_reduce(lambda v: sum(v, sp.Integer(0)) / len(v), lambda v: sum(v, sp.Integer(0)) / len(v))})
